@@ -111,3 +111,25 @@ impl Drop for ReentryGuard {
 pub fn reentry_reset() { REENTRY.with(|c| c.set(0)); REENTRY_MAX.with(|c| c.set(0)); }
 pub fn reentry_max() -> u32 { REENTRY_MAX.with(|c| c.get()) }
 pub fn reentry_set_limit(limit: u32) { REENTRY_LIMIT.with(|l| l.set(limit)); }
+
+// ---------------------------------------------------------------------------
+// H4: read-only quiescence snapshot of an interpreter
+// ---------------------------------------------------------------------------
+#[derive(Debug, Clone, Default, PartialEq, Eq)]
+pub struct Quiescence {
+    pub env_is_global: bool,
+    pub env_guards: usize,
+    pub call_stack: usize,
+    pub active_vm: bool,
+    pub trampoline_depth: usize,
+    pub pending_orders: usize,
+    pub cancelled_orders: usize,
+    pub order_responses: usize,
+    pub suspended_for_order: bool,
+    pub wait_contexts: usize,
+    pub ready_queue: usize,
+    pub pending_program: bool,
+    pub pending_module_sources: usize,
+    pub exports: usize,
+    pub next_order_id: u64,
+}
